@@ -239,6 +239,11 @@ func drawC08(t *rapid.T) *Case {
 				}
 			}
 			hasBody := rq.Spec.Method != "GET" && rq.Spec.Method != "HEAD" && rq.Spec.Method != "OPTIONS" && rq.Spec.Method != "DELETE"
+			if !hasBody && rq.Spec.Method != "HEAD" && drawBool(t, "bodyonbodiless", 20) {
+				// content on a method that usually has none (RFC 9110 9.3.1 / 9.3.5 / 9.3.7 allow
+				// it): forwarded like any other, with or without Content-Length
+				hasBody = true
+			}
 			if hasBody {
 				sz := drawBodySize(t)
 				if proto == "h2" {
